@@ -16,8 +16,10 @@ CHECKS = {
             "in {None,1,2,3}, plus large-count pairs around the default 123/1968 limits and shatter() for every count 0..2100: all "
             "executed on the real functions; an enumeration, not a sample, so within the alphabet no input violates the statement. "
             "The real poller loop (poller_modbus._poller) is run for 4 poll cycles under a virtual clock against a scripted device for "
-            "every non-empty subset of 7 addresses in 3 banks x reach {1,3,100} x {no failure, one transient read failure at every "
-            "read position of cycles 0/1, a register registered later}: every cycle's reads must satisfy the same clauses for the "
+            "every non-empty subset of 9 addresses in 3 banks (two far enough for a merged run longer than one transfer) x reach {1,3,100} x "
+            "{no failure, one transient read failure at every read position of cycles 0/1, a read failing in every cycle, a register "
+            "registered later, the reach changed at run time} x failure kind {exception response, no response, connection error}; "
+            "merge() is called with every order of presentation of each multiset: every cycle's reads must satisfy the same clauses for the "
             "registers known at that time and only known addresses may be stored.",
             "Addresses/counts outside the alphabet and sets of more than 4 ranges are not enumerated; merge is a sorted sweep whose "
             "decisions depend only on neighbouring ranges, which is why 4 ranges over clustered addresses exercise every branch pairing.",
@@ -42,7 +44,8 @@ CHECKS = {
             "of range end and budget boundary occurs, plus the production 488. Every read transfer of every (start,count) of tags of "
             "length 1..12 (1..24) is driven by advancing the offset by the bytes received, with a horizon, checking per-fragment "
             "status, whole-element and budget bounds and the exact concatenation; every composition of a write range into consecutive "
-            "fragments is written (every order for <= 4 fragments) and the store compared with the array model.",
+            "fragments is written (every order for <= 4 fragments) and the store compared with the array model. A tag of the widest "
+            "element type on the same Logix object is transferred first under every budget (the budget must not leak between requests).",
             "Element types are the fixed-size ones; strings/UDTs are outside the property as stated. Per-request max_size is not "
             "reachable from the wire.",
             "DESIGN.md §3 C04"),
@@ -121,7 +124,10 @@ CHECKS = {
             "Oracle: the server thread's Python-call count stays within K*(bytes+c) (K = 4 x worst per-byte cost on valid traffic; a "
             "hard cap turns a livelock into a reported hang), nothing escapes the connection runner, the connection is closed, the "
             "store is unchanged unless explained by a complete well-formed write carried in the delivered bytes, and a parked older "
-            "session and a new session read and write correctly afterwards.",
+            "session and a new session read and write correctly afterwards. Truncations at an inner nesting level with all enclosing "
+            "lengths kept consistent (ctrunc) must change nothing when the write request itself is cut. The datagram service "
+            "(real enip_srv_udp under a scripted recvfrom) gets the same neighbourhoods plus 1..24 surplus bytes, each followed by "
+            "valid datagrams of two peers that must be answered exactly as on a fresh simulator.",
             "Long random strings are not part of the deciding run (that would be sampling). A lenient reading of 'well-formed write' "
             "is used: the simulator may ignore sloppy wrapping around a complete CIP write request.",
             "DESIGN.md §3 C08"),
@@ -130,7 +136,7 @@ CHECKS = {
             "lock, sys.monitoring line events on the watched request-path functions, iterative preemption bounding (DFS over choice "
             "sequences), brute-force linearizability oracle",
             "2-3 real threads, each a session issuing 1-2 requests (plain and bundled reads/writes colliding on one tag, plus private "
-            "elements) against the real simulator at the Connection_Manager.request seam and through whole frames (logix.process incl. "
+            "elements; cold starts with and without configured tags where the racing sessions create the CIP objects) against the real simulator at the Connection_Manager.request seam and through whole frames (logix.process incl. "
             "Register). Scheduling points: every operation on any lock cpppo owns (each dfa_base.lock found through gc, class-level "
             "parser locks, UCMM.lock, setup.lock), request boundaries and, at granularity G1, every source line of the watched "
             "functions that touches possibly shared data (anchor list + AST scan). All schedules with <= 2 (thorough 3) preemptions "
@@ -178,7 +184,8 @@ CHECKS = {
             "alphabet (ints incl. 2^63, floats incl. inf, booleans, None, byte strings that look like length prefixes/colons/type tags, "
             "multi-byte text) as full products up to 3-4 leaf positions and all 1- (2-) position deviations beyond; dump is byte-compared "
             "with a from-the-grammar encoder, parse compared type-exactly. Every supported streaming payload x 20 tails x every 2-way "
-            "cut (thorough 3-way for short streams) and byte-wise feeding through tnet_machine and tnet_from (scripted recv).",
+            "cut (thorough 3-way for short streams) and byte-wise feeding through tnet_machine and tnet_from (scripted recv); "
+            "separator-delimited message streams (newline, CR LF, blank line) through tnet_from(ignore=...) in every chunking.",
             "Depth 3 is deviation-bounded, not a full product; machine payload types ^ ! ] } are unsupported by the machine.",
             "DESIGN.md §3 C20"),
     "C11": ("exploration",
@@ -187,11 +194,13 @@ CHECKS = {
             "Every expression AST of <= 4 (thorough 5) nodes over literals {a,b}, classes [ab], [^a], '.', concatenation, alternation, "
             "grouping, *, +, ?, {m,n} (m<=n<=2), de-duplicated by printed form (4175 / 44605 expressions) x every string over {a,b,c} "
             "of length <= 5, for cpppo.regex and cpppo.regex_bytes (terminal, greedy) and the string/string_bytes wrappers; the "
-            "multi-byte family over {e-acute, ., [^e-acute], a} x strings over {e-acute, e-circumflex (same lead byte), a}; 2-way "
+            "multi-byte family over {e-acute, ., [^e-acute], a} x strings over {e-acute, e-circumflex (same lead byte), a}, a 3-byte "
+            "family (U+20AC with siblings sharing two bytes / the lead byte) and a family whose second symbol has a different lead byte; 2-way "
             "chunkings and symbol-at-a-time feeding. Oracle: the machine consumes the longest prefix with a non-empty residual "
             "language, stores exactly it, is terminal iff that prefix (length >= 1) is a sentence, and fails non-terminally otherwise.",
-            "Two input universes, <= 5 nodes, <= 5 symbols, one 2-byte literal. Two known-finding kinds on the pinned tree: a "
-            "mis-reduction inside the third-party greenery library, and byte-wise '.' when a multi-byte literal is vacuous.",
+            "Four input universes, <= 5 nodes, <= 5 symbols. Three known-finding kinds on the pinned tree: a mis-reduction inside the "
+            "third-party greenery library, byte-wise '.' when a multi-byte literal is vacuous, and '.' taking one byte of a symbol whose "
+            "lead byte differs from the literal's.",
             "DESIGN.md §3 C11"),
     "C18": ("model_checking",
             "explicit-state, deviation-bounded exploration of the real history loader under a virtual clock: schedule prefixes replayed on "
@@ -251,14 +260,14 @@ CHECKS = {
     "C15": ("exploration",
             "complete product personality x request route path x service on freshly configured real simulators (UCMM subclass and "
             "main() argument parsing), access-counting Attribute class; exhaustive route-path text grammar vs reference parser",
-            "All 10 personalities (none, simple, five single-segment paths incl. extended port and address link, two two-segment "
-            "paths, empty list) x 13 request route paths (absent, empty, equal, other port/link, longer, shorter, numeric vs address "
+            "All 13 personalities (none, simple, five single-segment paths incl. extended port and address link, two two-segment "
+            "paths, empty list, three with a route table no request leads into) x 18 request route paths (absent, empty, equal, other port/link, longer, shorter, numeric vs address "
             "link) x 5 services (read, write, Get Attribute Single, bundle, Forward Open), each on a fresh simulator configured both "
-            "through a UCMM subclass and through main()'s --route-path/-S parsing: accept iff the statement's rule says so; a refusal "
+            "through a UCMM subclass and through main()'s --route-path/-S parsing, each request issued twice on the simulator: accept iff the statement's rule says so; a refusal "
             "must carry an error status, perform zero Attribute accesses (counted through the attribute_class extension point) and "
             "leave the store unchanged. All route-path texts of 1..2 (3) segments over port/link alphabets in 5 notations are "
-            "compared with the segments they spell.",
-            "No remote routes configured; main() only admits single-segment route paths.",
+            "compared with the segments they spell, as text and as the decoded list object (parsed twice, argument unchanged).",
+            "No request leads with a hop of a configured route table (no forwarding); main() only admits single-segment route paths.",
             "DESIGN.md §3 C15"),
 }
 
